@@ -326,6 +326,79 @@ def op_get(w, res, uri, hist, has=False):
                 expect_load((d, uri), reason)
 
 
+def run_referring(case, res):
+    """freshness THROUGH a referring template: main.html stays cached and unchanged while a template it includes,
+    inherits from or uses as a namespace is modified (a whole second later), deleted or replaced by put_string;
+    every render of main.html then shows what get_template would return for the referred-to template at that moment"""
+    clock = _st["clock"]
+    ex = _st["exceptions"]
+    for moddir in (False, True):
+        for how in ("include", "inherit", "namespace", "api"):
+            base = tempfile.mkdtemp(prefix="c14r-")
+            try:
+                root = os.path.join(base, "root")
+                os.makedirs(root)
+                kw = {"module_directory": os.path.join(base, "mods")} if moddir else {}
+                lk = _st["TemplateLookup"](directories=[root], filesystem_checks=True, **kw)
+
+                def write(name, text):
+                    fp = os.path.join(root, name)
+                    with open(fp, "w") as f:
+                        f.write(text)
+                    os.utime(fp, (clock.now, clock.now))
+
+                def part(v):
+                    if how == "inherit":
+                        return "P%d(${next.body()})" % v
+                    if how == "namespace":
+                        return '<%%def name="d()">P%d</%%def>' % v
+                    return "P%d" % v
+
+                main = {"include": 'M[<%include file="part.html"/>]', "inherit": '<%inherit file="part.html"/>M', "namespace": '<%namespace name="n" file="part.html"/>M[${n.d()}]',
+                        "api": "M[<% local.include_file('part.html') %>]"}[how]
+                shown = {"include": "M[P%d]", "inherit": "P%d(M)", "namespace": "M[P%d]", "api": "M[P%d]"}[how]
+                write("main.html", main)
+                write("part.html", part(1))
+                clock.advance(3)
+                steps = [("render", 1), ("modify", 2), ("render", 2), ("render", 2), ("modify", 3), ("render", 3), ("delete", None), ("render", None),
+                         ("rewrite", 4), ("render", 4), ("put_string", 5), ("render", 5)]
+                main_obj = None
+                for op, v in steps:
+                    clock.advance(2)
+                    res.evaluations += 1
+                    what = "referring template (%s, module_directory=%s), step %s %s" % (how, moddir, op, v)
+                    if op in ("modify", "rewrite"):
+                        write("part.html", part(v))
+                        continue
+                    if op == "delete":
+                        os.remove(os.path.join(root, "part.html"))
+                        continue
+                    if op == "put_string":
+                        # (a put_string entry has no file: from now on it is what the URI means)
+                        os.remove(os.path.join(root, "part.html"))
+                        lk.put_string("part.html", part(v))
+                        continue
+                    try:
+                        t = lk.get_template("main.html")
+                        out = t.render_unicode()
+                    except ex.TemplateLookupException:
+                        out = "TemplateLookupException"
+                    except Exception as e:
+                        out = "%s: %s" % (type(e).__name__, e)
+                    res.count("referring_renders")
+                    want = "TemplateLookupException" if v is None else shown % v
+                    if out != want:
+                        res.violate("stale-through-referring-template", "%s: main.html rendered %r, expected %r" % (what, out, want),
+                                    witness="main.html unchanged and cached, part.html changed")
+                    if main_obj is not None and out != "TemplateLookupException" and t is not main_obj:
+                        res.violate("not-same-object", "%s: main.html itself did not change but get_template returned a new object" % what)
+                    if out != "TemplateLookupException":
+                        main_obj = t
+                res.nontrivial("referring", how, moddir)
+            finally:
+                shutil.rmtree(base, ignore_errors=True)
+
+
 def lru_sync(w, res, hist):
     lk = w.lookup
     n = w.cfg["csize"]
@@ -473,6 +546,8 @@ SHARDED_GEN = True
 
 
 def gen_cases(tier, seed, shard, nshards):
+    if shard == 0:
+        yield {"kind": "referring"}
     kmax = 4 if tier == "quick" else 5
     i = 0
     batch = []
@@ -498,7 +573,9 @@ def gen_cases(tier, seed, shard, nshards):
 def run_case(case):
     res = common.CaseResult()
     k = case["kind"]
-    if k == "small":
+    if k == "referring":
+        run_referring(case, res)
+    elif k == "small":
         for ops in case["histories"]:
             for cfg in CONFIGS4:
                 run_history(cfg, [tuple(o) for o in ops], res)
